@@ -147,6 +147,8 @@ def main():
             m = re.match(r'fault/idx-(read|write)-(stack|global|const)-(int|byte|bool)$', c.name)
             if m or c.name in ('fault/idx-string-literal',):
                 pred_tasks.append(case_to_task(cw, pred='idx', length=5 if 'string' in c.name else 3))
+            if c.name.startswith('fault/logic-idx-'):
+                pred_tasks.append(case_to_task(cw, pred='idx', length=3))
             m = re.match(r'fault/idx-arg-(ints|bytes|string|strings)-(\d)$', c.name)
             if m:
                 pred_tasks.append(case_to_task(cw, pred='idx', length=int(m.group(2))))
